@@ -266,6 +266,18 @@ Theorem c17_reduced_ext_is_slice_extremum : forall c pairs, dg_link_ok c = true 
 Proof. exact dg_reduced_ext_spec. Qed.
 Print Assumptions c17_reduced_ext_is_slice_extremum.
 
+(** the same in canonical coordinates (r, theta, z, v), with no reference to the layout: the extremum over the
+    cells of the global array whose coordinate along every given axis equals the given fixValue *)
+Theorem c17_getminmax_canonical : forall c pairs, dg_link_ok c = true ->
+  dg_is_ext Z.le (dg_inbox (dg_canon_full c))
+    (fun idx => if dg_matches (dg_cfixs c pairs) idx then Some (dg_zn (dg_re c) (NdIndex.ravel (dg_N c) idx)) else None)
+    (dg_reduced_ext false c pairs)
+  /\ dg_is_ext Z.ge (dg_inbox (dg_canon_full c))
+    (fun idx => if dg_matches (dg_cfixs c pairs) idx then Some (dg_zn (dg_re c) (NdIndex.ravel (dg_N c) idx)) else None)
+    (dg_reduced_ext true c pairs).
+Proof. exact dg_reduced_ext_canonical_spec. Qed.
+Print Assumptions c17_getminmax_canonical.
+
 (** (e') float arguments of collect(), read as the exact rationals they are (Python's float t // dt is the
     floor of the exact quotient): a time inside step k goes to slot k mod saveStep - in particular t = k dt
     exactly.  The hypothesis is needed: see [c17_example_slot_tenth]. *)
